@@ -44,6 +44,21 @@ CLAIMED = {
         "what a callable / return_command alias does when run (external, may raise); expand_path is a pure function of one word (C04); "
         "string-alias classification in Aliases.__setitem__ (lexer) not verified. Trusted: pyvc engine + models + z3/cvc5.",
    design="§3 C15"),
+ "C05": dict(
+   category="proof",
+   text="The truth table lives in loop-free decision functions, so path enumeration over fully symbolic records is complete: "
+        "subproc_check_boolop and _check_subproc_helper_raise raise CalledProcessError IFF the documented predicate holds (raise flag, "
+        "effective pipeline = the value if it is a finished pipeline else the last command, not background, code not None/0, not !() "
+        "capture, not @error_ignore) and otherwise pass the value through; CommandPipeline._raise_subproc_error raises IFF (@error_raise "
+        "or standalone with $XONSH_SUBPROC_CMD_RAISE_ERROR) and returns the terminal before raising; __bool__ <=> returncode == 0; "
+        "returncode is 1 without a process else the last stage's; parse_proxy_return decodes int / 3rd element / else 0; "
+        "_boolop_contains_subproc sees helpers at any depth (loop invariant). Enum (complete): the @error_raise/@error_ignore rows of the "
+        "real alias table. Bounded stand-in (not counted as proved): the real AST wrapper + runtime decision executed on every chain shape "
+        "of up to 4 (thorough: 5) commands against reference short-circuit semantics.",
+   note="Unverified: that the parser produces BoolOps/helper calls for &&/|| and for text that is / is not valid Python; that a failing "
+        "operand really reports a non-zero code (process machinery, C06/C09); main_xonsh exit-status selection; callable raise_subproc_error. "
+        "Trusted: pyvc engine + models + z3/cvc5.",
+   design="§3 C05"),
 }
 NA = {
  "C01": "equivalence of two grammars (PLY LALR tables vs CPython's PEG parser) is not a function contract; no contract within reach can express or decide it (DESIGN §3 C01)",
